@@ -195,7 +195,7 @@ def run(rep):
     # "nested structs refer to the emitted struct of the same name": the struct a member names is reachable from the same variable, so it is
     # emitted exactly when the type closure follows members / arrays (C08's closure rules)
     from common import include
-    include(rep, 'c08', ('C08.closure',), 'nested-struct-emitted')
+    include(rep, 'c08', ('C08.closure', 'C08.filter-formula', 'C08.struct-only'), 'nested-struct-emitted')
     # the section reaches the assembled output unconditionally (shared rule, lib/sections.py)
     from sections import check_wiring
     check_wiring(rep, 'C06.section-wiring', ['derive ( #('], 'struct-section')
